@@ -2,8 +2,8 @@
 def table(J):
     return {
         "C01": [J("TestC01", checks=(6000, 40000), shards=(2, 16))],
-        "C02": [J("TestC02", checks=(5000, 40000), shards=(2, 16))],
-        "C03": [J("TestC03", checks=(6000, 40000), shards=(2, 16))],
+        "C02": [J("TestC02", checks=(5000, 40000), shards=(2, 16)), J("TestC02Histories", checks=(400, 6000), shards=(2, 8))],
+        "C03": [J("TestC03", checks=(6000, 40000), shards=(2, 16)), J("TestC03Histories", checks=(400, 6000), shards=(2, 8))],
         "C04": [J("TestC04", checks=(6000, 40000), shards=(2, 16))],
         "C05": [J("TestC05", checks=(8000, 60000), shards=(4, 16))],
         "C06": [J("TestC06", checks=(8000, 60000), shards=(4, 16))],
